@@ -40,6 +40,9 @@ CLAIMS["C08"] = dict(text='Inductive step on the real LDAPClient/LDAPServer obje
 CLAIMS["C09"] = dict(text='Inductive step on the real LDAPClient/LDAPServer objects (one public call with symbolic id / result code / drain amount from an arbitrary symbolic pre-state satisfying the representation invariant, which every real-mode replay reaches through public calls only) plus bounded model checking of every call sequence of depth 2 (quick) / 3 (thorough) from fresh sessions; post-conditions come from an independent ghost model of the documented state machine and are z3 validity queries. Clauses checked here: returned id = old counter >= 1, counter +1, id decoded (reference decoder) from the emitted bytes equals the returned id, acceptance iff the id is in progress, searches retired only by done, unknown/retired id or request-type message => ProtocolError + CLOSED.', ref="DESIGN.md 3/C08-C12", technique="symbolic execution of real session calls from symbolic pre-states (one-step induction) + bounded model checking, z3 validity queries against a ghost state machine")
 CLAIMS["C10"] = dict(text='Inductive step on the real LDAPClient/LDAPServer objects (one public call with symbolic id / result code / drain amount from an arbitrary symbolic pre-state satisfying the representation invariant, which every real-mode replay reaches through public calls only) plus bounded model checking of every call sequence of depth 2 (quick) / 3 (thorough) from fresh sessions; post-conditions come from an independent ghost model of the documented state machine and are z3 validity queries. Clauses checked here: a refused call leaves the outgoing stream untouched and raises only LDAPError; the server emits only for outstanding ids; final responses retire the request.', ref="DESIGN.md 3/C08-C12", technique="symbolic execution of real session calls from symbolic pre-states (one-step induction) + bounded model checking, z3 validity queries against a ghost state machine")
 CLAIMS["C12"] = dict(text='Inductive step on the real LDAPClient/LDAPServer objects (one public call with symbolic id / result code / drain amount from an arbitrary symbolic pre-state satisfying the representation invariant, which every real-mode replay reaches through public calls only) plus bounded model checking of every call sequence of depth 2 (quick) / 3 (thorough) from fresh sessions; post-conditions come from an independent ghost model of the documented state machine and are z3 validity queries. Clauses checked here: data_to_send(a) returns x with x + rest == before for every int a or None and changes nothing else; every other call only appends (and a successful send appends one well-formed message); by induction the drained concatenation equals the concatenation of the successful sends.', ref="DESIGN.md 3/C08-C12", technique="symbolic execution of real session calls from symbolic pre-states (one-step induction) + bounded model checking, z3 validity queries against a ghost state machine")
+CLAIMS["C18"] = dict(
+    text="Every regular expression the current tree compiles (captured at import and call time) is translated to sre's backtracking automaton; a z3 Fixedpoint (Datalog) query over the product automaton decides exponential ambiguity with no bound on the pump length, and a positive is confirmed by timing the attack string on the real re before it is reported. The hand-written filter scanner is executed symbolically on every string up to the bound with structural progress obligations (each recursive call consumes >= 1, nested calls of the same function get strictly shorter intervals, sibling consumption ranges are disjoint and ordered), from which the O(n^2) bound follows by an induction argued in DESIGN.md.",
+    ref="DESIGN.md 1.3, 3/C18", technique="regex -> backtracking automaton -> z3 Datalog fixpoint (no length bound) + symbolic execution (SX) of the recursive-descent scanner", engine="RX+SX")
 PENDING = {}
 
 def main():
@@ -72,8 +75,10 @@ def main():
             "add_only": True,
         },
         "engines": [
-            {"name": "SX", "path": "/verif/sx", "serves_properties": sorted(p for p in CLAIMS if CLAIMS[p].get("engine", "SX") == "SX"),
+            {"name": "SX", "path": "/verif/sx", "serves_properties": sorted(p for p in CLAIMS if "SX" in CLAIMS[p].get("engine", "SX")),
              "kind_free_text": "proxy-based symbolic executor over the real Python source, z3 back end, DFS by re-execution with a decision trail, replay of every model on the real package"},
+            {"name": "RX", "path": "/verif/rx", "serves_properties": ["C18"],
+             "kind_free_text": "sre parse tree -> Thompson automaton preserving backtracking alternatives -> z3 Fixedpoint (datalog) query for exponential degree of ambiguity; concrete timing replay of witnesses"},
         ],
         "checks": checks,
         "not_applicable": na,
